@@ -93,8 +93,11 @@ def check_maps(ctx: Ctx, case) -> None:
         if shadow is not None and qi % 3 != 0:
             # another chart with another tempo map is alive and answers the same tick just before
             # (not for every tick: a consistently wrong timeline would still be monotone)
-            shadow.timestamp_at_tick(t)
-            shadow.timestamp_at_tick_no_optimize_return(t)
+            try:
+                shadow.timestamp_at_tick(t)
+                shadow.timestamp_at_tick_no_optimize_return(t)
+            except Exception:  # noqa: BLE001  (the shadow is not under test)
+                pass
         try:
             a = td_us(bpm.timestamp_at_tick_no_optimize_return(t))
             b = td_us(bpm.timestamp_at_tick(t)[0])
